@@ -41,6 +41,8 @@ pub struct TCase {
     /// module strictness is a swarm dimension: a bank that accepts any recipient string
     #[serde(default)]
     pub lenient_bank: bool,
+    #[serde(default)]
+    pub sub_second: bool,
 }
 
 fn dn(i: u8) -> &'static str {
@@ -149,7 +151,7 @@ pub fn gen(seed: u64, prop: &str) -> TCase {
         };
         ops.push(op);
     }
-    TCase { routes, admin_explicit: rng.chance(1, 2), trader_explicit: rng.chance(1, 2), ops, start_s: 1_700_000_000 + rng.below(50_000_000), lenient_bank: rng.chance(3, 10) }
+    TCase { routes, admin_explicit: rng.chance(1, 2), trader_explicit: rng.chance(1, 2), ops, start_s: 1_700_000_000 + rng.below(50_000_000), lenient_bank: rng.chance(3, 10), sub_second: rng.chance(1, 2) }
 }
 
 struct TModel {
@@ -179,6 +181,7 @@ pub fn eval(c: &TCase) -> Eval {
     let mut w = World::new(setup, c.start_s * 1_000_000_000);
     w.st.channels.insert("channel-1".into(), Chan { open: true, next_seq: 10 });
     w.lenient_bank = c.lenient_bank;
+    w.sub_second = c.sub_second;
     let mut ev = Eval::default();
     let mut viol: Vec<Violation> = vec![];
     // principals: 0 = current admin (dynamic), 1 = current trader (dynamic), 2.. fixed accounts
@@ -424,6 +427,9 @@ pub fn eval(c: &TCase) -> Eval {
                     let r = w.tx_execute(&t, &sender, &[], &probe);
                     if !r.ok {
                         v("C12", "new_admin_has_rights", format!("new treasury admin refused: {}", r.err));
+                    } else if !pred {
+                        // the admin-only operations now work for an account the admin never handed the treasury to
+                        v("C13", "update_config_admin_only", format!("UpdateConfig by {} succeeded: it became admin through an AcceptOwnership that had to be refused (admin {}, nomination {:?})", sender, old, m.nominee));
                     }
                     let r = w.tx_execute(&t, &sender, &[], &json!({"accept_ownership": {}}).to_string());
                     if r.ok {
